@@ -364,6 +364,13 @@ impl LexiconReader {
             return rec.ctx.err(BuildFailure::EmptySurface);
         }
 
+        if surface.contains('\0') {
+            // NUL terminates keys inside the trie, it can not be a part of one
+            return rec
+                .ctx
+                .err(BuildFailure::InvalidCharLiteral("0000".to_owned()));
+        }
+
         self.ctx = rec.ctx;
 
         let entry = RawLexiconEntry {
